@@ -31,7 +31,7 @@ Known(c) == \/ (c.mod = "rib" /\ c.verb \in {"register", "unregister"})
             \/ (c.mod = "fib" /\ c.verb \in {"add-nexthop", "remove-nexthop"})
             \/ (c.mod = "strategy-choice" /\ c.verb \in {"set", "unset"})
             \/ (c.mod = "cs" /\ c.verb = "config")
-            \/ (c.mod = "faces" /\ c.verb = "update")
+            \/ (c.mod = "faces" /\ c.verb \in {"update", "destroy"})
 \* parameters that are missing, malformed or out of range: must be answered 4xx and change nothing
 Malformed(c) ==
   \/ ~c.hasParams
@@ -40,10 +40,11 @@ Malformed(c) ==
   \/ (c.verb \in {"register", "add-nexthop"} /\ c.faceId > 0 /\ c.faceId \notin DOMAIN faces)
   \/ (c.mod = "strategy-choice" /\ c.verb = "unset" /\ c.name = <<>>)
   \/ (c.mod = "cs" /\ c.capacity = -2)
-  \/ (c.mod = "faces" /\ EffFace(c) \notin DOMAIN faces)
-  \/ (c.mod = "faces" /\ c.mtu >= 0 /\ c.mtu < 1)          \* an MTU that cannot carry any fragment
+  \/ (c.mod = "faces" /\ c.verb = "update" /\ EffFace(c) \notin DOMAIN faces)
+  \/ (c.mod = "faces" /\ c.verb = "update" /\ c.mtu >= 0 /\ c.mtu < 1)          \* an MTU that cannot carry any fragment
+  \/ (c.mod = "faces" /\ c.verb = "destroy" /\ c.faceId < 0)                    \* destroy names its face explicitly (one that is gone already is fine)
 \* an MTU between 1 and MinMtu-1 may be refused or accepted (DESIGN 4.0); MinMtu and above must be accepted
-MayRefuse(c) == c.mod = "faces" /\ c.mtu >= 1 /\ c.mtu < MinMtu
+MayRefuse(c) == c.mod = "faces" /\ c.verb = "update" /\ c.mtu >= 1 /\ c.mtu < MinMtu
 Accepts(c) == Authorised(c) /\ Known(c) /\ ~Malformed(c)
 Apply(c) ==
   LET g == EffFace(c) IN
@@ -64,6 +65,9 @@ Apply(c) ==
     [] c.verb = "set" -> st' = Ext(st, c.name, c.stratName) /\ UNCHANGED <<routes, nh, cap, faces>>
     [] c.verb = "unset" -> st' = Drop(st, {c.name}) /\ UNCHANGED <<routes, nh, cap, faces>>
     [] c.verb = "config" -> cap' = (IF c.capacity < 0 THEN cap ELSE c.capacity) /\ UNCHANGED <<routes, nh, st, faces>>
+    [] c.verb = "destroy" -> \* the face leaves the face table and, as for any face that goes down, its routes leave the RIB
+         /\ faces' = Drop(faces, {c.faceId}) /\ routes' = { r \in routes : r.face # c.faceId }
+         /\ UNCHANGED <<nh, st, cap>>
     [] c.verb = "update" -> faces' = (IF c.mtu >= 0 THEN [faces EXCEPT ![g] = IF c.mtu > 8800 THEN 8800 ELSE c.mtu] ELSE faces)
                             /\ UNCHANGED <<routes, nh, st, cap>>
 \* accepted: whether the command took effect (for MayRefuse commands the observed status decides)
